@@ -604,6 +604,87 @@ def blocks_keep_identity(ctx: Ctx, rep: Report, rid: str = "R16.18") -> None:
             rep.violation("Acl.group", snippet(c, 60), "a block that is rebuilt gets a fresh identifier and an empty note: every operation that re-groups (items setter, port_nr / protocol_nr / type / platform switches, ungroup_ports, delete_shadow) loses the identifier and the note of every AceGroup of a grouped ACL", where(f, c), inp="acl = Acl(text, group_by='=== '); acl.items[0].note = 'N'; acl.port_nr = True; acl.items[0].note == ''")
 
 
+def adopted_objects_get_settings(ctx: Ctx, rep: Report, rid: str = "R16.22") -> None:
+    """The two builders of rule lists (AceGroup.items and its override Acl.items) adopt a ready-made entry the same way:
+    the settings written onto the adopted object (platform, version, type) are the same set in both - an entry adopted
+    without one of them keeps its own (an `ip access-list standard` spelling inside an extended ACL), and the next
+    re-render, regroup or platform change reads it with the wrong one."""
+    rep.rule(rid)
+    stores: Dict[str, Set[str]] = {}
+    at: Dict[str, ast.AST] = {}
+    for q in ("AceGroup.items.setter", "Acl.items.setter"):
+        f = ctx.prog.find_func(q)
+        if f is None:
+            continue
+        for lp in [x for x in own_nodes(f.node) if isinstance(x, ast.For) and isinstance(x.target, ast.Name)]:
+            var = lp.target.id
+            for br in [x for x in ast.walk(lp) if isinstance(x, ast.If) and isinstance(x.test, ast.Call) and src(x.test.func) == "isinstance" and len(x.test.args) == 2 and src(x.test.args[0]) == var]:
+                names = [src(e) for e in (br.test.args[1].elts if isinstance(br.test.args[1], ast.Tuple) else [br.test.args[1]])]
+                if not any(nm in ctx.prog.classes for nm in names):
+                    continue
+                got = set()
+                for b in br.body:
+                    for y in ast.walk(b):
+                        if isinstance(y, ast.Assign):
+                            for t in y.targets:
+                                if isinstance(t, ast.Attribute) and src(t.value) == var:
+                                    got.add(t.attr.lstrip("_"))
+                        if isinstance(y, ast.Call) and src(y.func) == "setattr" and len(y.args) == 3 and src(y.args[0]) == var and isinstance(y.args[1], ast.Constant):
+                            got.add(str(y.args[1].value).lstrip("_"))
+                        if isinstance(y, ast.Call) and any(isinstance(a_, ast.Name) and a_.id == var for a_ in y.args):
+                            # the settings are written by a helper that is handed the entry
+                            from .common import callee_of_self_call
+
+                            g = callee_of_self_call(ctx, f, y)
+                            if g is not None:
+                                idx = [i for i, a_ in enumerate(y.args) if isinstance(a_, ast.Name) and a_.id == var][0]
+                                ps = [p_ for p_ in g.params if p_ not in ("self", "cls")]
+                                if idx < len(ps):
+                                    for z in own_nodes(g.node):
+                                        if isinstance(z, ast.Assign):
+                                            for t in z.targets:
+                                                if isinstance(t, ast.Attribute) and src(t.value) == ps[idx]:
+                                                    got.add(t.attr.lstrip("_"))
+                stores[q] = stores.get(q, set()) | got
+                at.setdefault(q, br)
+    rep.instance()
+    if len(stores) < 2:
+        rep.note(f"{rid} the two rule-list builders are not both present as object-adopting loops (merged?) - not judged")
+        return
+    (qa, sa_), (qb, sb_) = sorted(stores.items())
+    if sa_ == sb_:
+        rep.ok(f"{qa} / {qb}", f"an adopted entry gets {sorted(sa_)} in both", where=where(ctx.func(qa), at[qa]))
+    else:
+        for q, mine, theirs, oq in ((qa, sa_, sb_, qb), (qb, sb_, sa_, qa)):
+            miss = sorted(theirs - mine)
+            if miss:
+                rep.violation(q, f"{snippet(at[q].test, 50)}: sets {sorted(mine)}", f"an entry adopted by this builder does not get {miss} of its container (the sibling builder {oq} sets it): it keeps the setting it was made with, and the next re-render, regroup or platform change of the ACL reads the entry with a setting that is not the ACL's", where(ctx.func(q), at[q]), inp="Acl('ip access-list extended A', items=[Ace('permit host 10.0.0.1', type='standard')]); acl.group() / acl.platform = 'nxos'")
+
+
+def blocks_keep_number(ctx: Ctx, rep: Report, rid: str = "R16.23") -> None:
+    """A block that `Acl.group` rebuilds keeps its own sequence number, as it keeps identifier and note (R16.18): the number
+    is exported (`data()["sequence"]`) and decides `sort()`; a copy, an import of the exported data and every
+    re-initialising switch end in `group()`, so a block rebuilt without its number makes `acl.copy().data() != acl.data()`
+    and lets `sort()` fall back to comparing text ('100 ...' < '80 ...') after `resequence()`."""
+    rep.rule(rid)
+    f = ctx.func("Acl.group")
+    ag = ctx.cls("AceGroup")
+    ctors = [x for x in own_nodes(f.node) if isinstance(x, ast.Call) and isinstance(x.func, ast.Name) and ctx.prog.resolve_name(f.module, x.func.id) is ag]
+    rep.instance()
+    rep.require(bool(ctors), "Acl.group no longer builds AceGroup blocks")
+    # the existing block is the variable whose identifier is collected (R16.18)
+    blocks = {src(x.value) for x in own_nodes(f.node) if isinstance(x, ast.Attribute) and x.attr == "uuid" and isinstance(x.ctx, ast.Load) and src(x.value) != "self"}
+    reads_seq = [x for x in own_nodes(f.node) if isinstance(x, ast.Attribute) and x.attr.lstrip("_") == "sequence" and isinstance(x.ctx, ast.Load) and src(x.value) in blocks]
+    for c in ctors:
+        kws = {k.arg: k.value for k in c.keywords}
+        explicit = "sequence" in kws
+        spread = any(k is None for k in kws)
+        if reads_seq and (explicit or spread):
+            rep.ok(f"Acl.group: {snippet(c, 40)}", f"the rebuilt block receives the number read from the block it replaces ({snippet(reads_seq[0], 30)})", where=where(f, c))
+        else:
+            rep.violation("Acl.group", snippet(c, 60), "a block that is rebuilt loses its sequence number (the identifier and the note of the old block are handed over, the number is not): after resequence() a copy, an import of data() or any re-initialising switch gives blocks numbered 0 - `acl.copy().data() != acl.data()`, and sort() compares the text of the blocks ('100 remark' < '80 remark')", where(f, c), inp="acl = Acl(text, group_by='=== '); acl.resequence(80, 20); acl.copy().data() != acl.data(); acl.port_nr = True; acl.sort()")
+
+
 def dicts_rebuilt_whole(ctx: Ctx, rep: Report, rid: str = "R16.19") -> None:
     """A member that is handed over as exported data (a dict) is rebuilt from ALL of it: the construction in the dict
     branch of an items builder receives `**<the item>` itself (a hand-picked subset of keys drops what it does not list:
@@ -827,6 +908,8 @@ def run(ctx: Ctx, rep: Report, tier: str) -> None:
     settings_propagation(ctx, rep)
     dict_builders_pass_everything(ctx, rep)
     objects_adopted_once(ctx, rep)
+    adopted_objects_get_settings(ctx, rep)
+    blocks_keep_number(ctx, rep)
     dicts_rebuilt_whole(ctx, rep)
     blocks_keep_identity(ctx, rep)
     exporter_reads_own_settings(ctx, rep)
